@@ -315,12 +315,75 @@ def gen_op(rng, v, rid, profile):
     return ["req", gen_request(rng, v, rid, profile), rng.randint(0, 2)]
 
 
+def _w(name, **kw):
+    w = {"name": name, "np": 1, "warmup_ms": 0, "graceful_ms": 100, "stop_signal": 15, "priority": 0, "respawn": True,
+         "autostart": True, "stop_children": False, "max_retry": 2, "send_hup": False, "singleton": False}
+    w.update(kw)
+    return w
+
+
+def _req(cmd, rid, **props):
+    return ["req", {"command": cmd, "id": rid, "properties": props}, 0]
+
+
+def recipe_on_demand_stop(rng):
+    """an on-demand watcher whose socket-triggered start (detached, paced by warmup) is overtaken by a stop"""
+    sc = {"arb": {"warmup_ms": 0}, "behav": [{"term": ["obey", rng.choice([0, 0, 50])], "kill_lat": 0}],
+          "watchers": [_w("a", np=rng.choice([2, 3, 4]), warmup_ms=rng.choice([100, 300]), graceful_ms=rng.choice([0, 100]),
+                          on_demand=True)]}
+    if rng.random() < 0.4:
+        sc["watchers"].append(_w("B", np=1, priority=rng.choice([-1, 1])))
+    pre = [["start"], ["wake"], ["wake"], ["sockev", 1], ["check"]]
+    if rng.random() < 0.7:
+        pre.append(["sockev", 0])
+    pre += [["wake"]] * rng.choice([0, 0, 1])
+    pre.append(_req(rng.choice(["stop", "stop", "restart"]), "q1", name="a", waiting=rng.random() < 0.5))
+    pre += [["wake"]] * rng.choice([2, 4, 6])
+    return sc, pre
+
+
+def recipe_untracked_zombies(rng):
+    """workers that the daemon no longer tracks (rm --nostop) die: the arbiter's waitpid(-1) loop has to collect them all"""
+    n = rng.choice([2, 3, 4])
+    sc = {"arb": {"warmup_ms": 0}, "behav": [{"term": ["obey", 0], "kill_lat": 0}],
+          "watchers": [_w("a", np=n), _w("B", np=rng.choice([0, 1]), priority=-1)]}
+    pre = [["start"]] + [["wake"]] * 4 + [_req("rm", "q1", name="a", nostop=True)]
+    pre += [(lambda i: (lambda v: ["die", 100 + i, rng.choice([0, 256, 9])]))(i) for i in range(n)]
+    pre += [["check"], ["check"]]
+    return sc, pre
+
+
+def recipe_topup_start(rng):
+    """several watchers started together while a running one is short of workers"""
+    sc = {"arb": {"warmup_ms": rng.choice([0, 100])}, "behav": [{"term": ["obey", 0], "kill_lat": 0}],
+          "watchers": [_w("a", np=rng.choice([2, 3]), priority=2, warmup_ms=rng.choice([100, 300])),
+                       _w("B", np=rng.choice([1, 2]), priority=0, warmup_ms=100)]}
+    pre = [["start"]] + [["wake"]] * 8 + [_req("stop", "q1", name="B", waiting=True)] + [["wake"]] * 3
+    pre += [lambda v: ["die", (v.pids.get("a") or [100])[0], 0]]
+    if rng.random() < 0.5:
+        pre += [lambda v: ["die", (v.pids.get("a") or [100, 101])[-1], 9]]
+    pre += [_req("start", "q2", name="*", waiting=rng.random() < 0.5)] + [["wake"]] * 8
+    return sc, pre
+
+
+RECIPES = {"on_demand_stop": recipe_on_demand_stop, "untracked_zombies": recipe_untracked_zombies,
+           "topup_start": recipe_topup_start}
+
+
 def gen_scenario(rng, nops=None, profile=None):
     """returns (scenario, impl steps) — the implementation is run while generating"""
     profile = profile or {}
-    sc = gen_config(rng, profile)
+    scripted = []
+    sc = None
+    for name, p in (profile.get("recipes") or {}).items():
+        if rng.random() < p:
+            sc, scripted = RECIPES[name](rng)
+            break
+    if sc is None:
+        sc = gen_config(rng, profile)
     sc["ops"] = []
     nops = nops or rng.choice([6, 10, 16, 24, 40])
+    nops = max(nops, len(scripted) + 4) if scripted else nops
     s = sim.Sim(sc)
     steps = []
     s.setup()
@@ -330,7 +393,10 @@ def gen_scenario(rng, nops=None, profile=None):
             if s.blocked:
                 break
             v = View(s)
-            op = first if (i == 0 and first) else gen_op(rng, v, "r%d" % i, profile)
+            if i < len(scripted):
+                op = scripted[i](v) if callable(scripted[i]) else scripted[i]
+            else:
+                op = first if (i == 0 and first) else gen_op(rng, v, "r%d" % i, profile)
             sc["ops"].append(op)
             s.k.log = []
             s.apply(op)
